@@ -105,6 +105,10 @@ func (p *ProjectRunner) Run() error {
 	for _, proc := range runOrder {
 		newConf := proc
 		verifYield("run.loop", newConf.ReplicaName)
+		if p.getRunningProcess(newConf.ReplicaName) != nil {
+			// already started by an explicit request while the project was spinning up
+			continue
+		}
 		p.runProcess(&newConf)
 	}
 	p.startupOnce.Do(func() { close(p.startupDone) })
